@@ -107,6 +107,10 @@ def correspondence(run):
             run.disagree("compile", list(t), repr(brief(real) if real[0] != "ok" else real[1])[:1500], repr(m)[:1500])
 
 
+RAW_VALID = [("{}", 1), ("2 {}", 1), ("mix(flour, salt {})", 1), ("{} = boil(water)\nserve({})", 1), ("''", 1), ("fry('')", 1), ('""', 1),
+             ("1 g {} of x", 1), ("a {}{} b", 1), ("x = {}\ny = ''\nmix(x, y)", 1), ("sauce {} = boil({} tomato {})\nserve(1/2 of sauce, rest of sauce)", 2)]
+
+
 def oracle(run):
     cases = gen_cases(run, run.budget(600, 15000))
     for g, inp in run.focus:
@@ -117,6 +121,14 @@ def oracle(run):
         for sig, detail in check_case(d, texts, marks):
             run.violate(sig, detail, {"desc": repr(d), "sources": texts})
     run.note("by-name meaning compared with compile() on %d descriptions" % len(cases))
+    # legal descriptions at the edge of the string syntax (empty strings of every kind), by hand: accepted, with this many root trees
+    for text, roots in RAW_VALID:
+        run.case(("raw-valid", text), True, kind="raw-valid")
+        real = real_outcome([text])
+        if real[0] != "ok":
+            run.violate("C01:valid-description-rejected", "%r: %r" % (text, brief(real)), {"raw": text, "roots": roots})
+        elif len(real[2][0].recipe_trees) != roots:
+            run.violate("C01:compiled-recipe-differs-from-documented-meaning", "%r: %d root trees, expected %d" % (text, len(real[2][0].recipe_trees), roots), {"raw": text, "roots": roots})
     # the name type the comparison "ignoring case and surrounding whitespace" rests on
     run.case(("svs-algebra",), True, kind="name-normalisation")
     seen = set()
@@ -131,6 +143,16 @@ def oracle_validity(run, check_recipes):
     rng = run.rng
     for d, texts, marks in gen_cases(run, run.budget(250, 6000)):
         real = real_outcome(texts)
+        if real[0] == "exception" and real[1] != "RecursionError":
+            # the compiler's own final validity check (or a constructor) refused what the inlining pass had built from a description
+            # the language reference accepts: the recipe that was about to be returned was not a well-formed DAG
+            try:
+                gen_desc.meaning(d)
+                run.case(("oracle-compiled", tuple(texts)), True, kind="compiled-refused")
+                run.violate("C08:compile-builds-a-recipe-its-own-validity-check-refuses:%s" % real[1], "%s: %s for %r" % (real[1], real[2], texts), {"source": texts, "k": "1"})
+            except gen_desc.Rejected:
+                pass
+            continue
         if real[0] != "ok":
             continue
         k = rng.choice([2, 3, Fraction(1, 3), Fraction(7, 2), 0.5, 1.5])
@@ -147,6 +169,8 @@ def oracle_validity(run, check_recipes):
 
 def replay_validity(r, check_recipes):
     real = real_outcome(r["source"])
+    if real[0] == "exception":
+        return [("C08:compile-builds-a-recipe-its-own-validity-check-refuses:%s" % real[1], real[2])]
     if real[0] != "ok":
         return []
     k = eval(r["k"], {"Fraction": Fraction})
@@ -155,6 +179,10 @@ def replay_validity(r, check_recipes):
 
 def replay(run, obj):
     r = obj["replay"]
+    if "raw" in r:
+        real = real_outcome([r["raw"]])
+        print(brief(real))
+        return real[0] != "ok" or len(real[2][0].recipe_trees) != r["roots"]
     if r.get("svs_algebra"):
         import random
         res = gen_desc.check_svs_algebra(random.Random(0), 20000)
